@@ -109,6 +109,9 @@ def spine(tier, seed):
                                 samp_md=D.MD_KINDS[(k + seed) % nk], header=1, layout=lay))
             out.append(dict(base, prod='B-ids', obs_style='edgews', samp_style='edgews', obs_md='textws',
                             samp_md='textws', header=1, layout=lay))
+            out.append(dict(base, prod='B-md', obs_md='casevariant', samp_md='casevariant', header=1, layout=lay))
+            # an ordinary write after a write that passed its own formatter for a category of the same name
+            out.append(dict(base, prod='B-md', obs_md='text', samp_md='two', header=1, layout=lay, after_format_fs=True))
             for hd, g in itertools.product(range(len(D.HEADERS)), range(len(GMD))):
                 out.append(dict(base, prod='B-hdr', header=hd, gmd=g, layout=lay))
             if lay == 'csr':
@@ -354,6 +357,17 @@ def check(case, acc, tmp):
         acc.count('skipped:incoherent-source-table')      # C05's business
         return
     count_factors(acc, case, t)
+    if case.get('after_format_fs'):
+        import h5py
+
+        def shout(grp, header, md, compression):
+            grp.create_dataset('metadata/%s' % header, shape=(len(md),), dtype=h5py.special_dtype(vlen=str),
+                               data=[('!' + str(m[header])).encode('utf8') for m in md], compression=compression)
+        fh0 = h5py.File('c01-fs-%d.h5' % os.getpid(), 'w', driver='core', backing_store=False)
+        try:
+            build(case).to_hdf5(fh0, 'verif', format_fs={'label': shout})
+        finally:
+            fh0.close()
     src = observe_source(t)
     before = O.content(t)
     gen = src['generated_by'] if src['generated_by'] is not None else GEN_DEFAULT
